@@ -5,7 +5,7 @@ from harness import common, gen, api
 from harness.common import fhex, flist, ftable, ftable2, cbool
 
 LEVEL = "proof"
-IMPORTS = ["From MuxV Require Import Base.Num Base.Vec3 Base.FInst Model.Grid Model.GridF Model.QCurve Model.QCurveF Model.Kuchemann Model.KuchemannF Model.SegSort Model.SegSortF Model.Reid Model.ReidF Model.Gather Model.GatherF."]
+IMPORTS = ["From MuxV Require Import Base.Num Base.Vec3 Base.FInst Model.Grid Model.GridF Model.QCurve Model.QCurveF Model.Kuchemann Model.KuchemannF Model.SegSort Model.SegSortF Model.Swept Model.SweptF Model.Reid Model.ReidF Model.Gather Model.GatherF."]
 
 
 # ------------------------------------------------------------------ grid correspondence
@@ -229,6 +229,21 @@ def qcurve_cases(chk, ac, a, cases, descr):
         exp = [list(map(float, p)) for p in seg.nodes] + [list(map(float, p)) for p in seg.control_points]
         cases.append("chk_ll %s %s %s %s" % (ftable(tc), ftable(ts), rows, ftrip(exp)))
         descr.append(dict(what="lifting-line-offset", segment=seg.name, ll_offset=w.get("ll_offset", 0.0)))
+
+
+def swept_cases(chk, a, cases, descr):
+    """Model/Swept.v: the arrays of swept unit vectors (axial, normal, span) every segment stores at its nodes, recomputed by the model from
+    the lifting-line points and the unswept chord directions at the nodes"""
+    for seg in a.segments:
+        if seg.N < 2:
+            continue
+        nodes = np.array(seg.node_span_locs, dtype=float)
+        ll = np.array(seg._get_ll_loc(nodes), dtype=float)
+        ua0 = np.array(seg._get_unswept_axial_vec(nodes), dtype=float)
+        exp = "[" + "; ".join("(%s, %s, %s)" % (cv3(seg._u_a_dist[i]), cv3(seg._u_n_dist[i]), cv3(seg._u_s_dist[i])) for i in range(len(nodes))) + "]"
+        cases.append("chk_swept 0x1p-30 [%s] [%s] %s" % ("; ".join(cv3(p_) for p_ in ll), "; ".join(cv3(p_) for p_ in ua0), exp))
+        descr.append(dict(what="swept-section-vectors", segment=seg.name))
+        chk.count("swept-vectors=" + seg.side)
 
 
 def sort_cases(chk, a, cases, descr):
@@ -508,7 +523,7 @@ def run(chk):
         "nodes / control_points from quarter-chord point, ll_offset, chord and section angles",
         "independent oracle for the quarter-chord curve: scipy.quad integration of the documented curve (dx/ds=-b tan(sweep), dihedral rotating the "
         "span direction, connection point with mirrored y offset) written separately from the implementation",
-        "correspondence: Model/Kuchemann.v on binary64 vs the stored table of Kuchemann offsets (bit-exact; cos, tan, float power as oracles); dihedral and sweep derived from quarter-chord points (bit-exact; arctan2, arctan, scalar square as oracles)", "not modelled: section unit vectors from np.gradient (checked finite only), callables; scipy.integrate.quad is an oracle"])
+        "correspondence: Model/Kuchemann.v on binary64 vs the stored table of Kuchemann offsets (bit-exact; cos, tan, float power as oracles); dihedral and sweep derived from quarter-chord points (bit-exact; arctan2, arctan, scalar square as oracles)", "correspondence: Model/Swept.v on binary64 vs the swept unit vectors stored at the nodes (_u_a_dist, _u_n_dist, _u_s_dist; 2^-30), Model/SegSort.v vs the order of the left-hand segments", "not modelled: interpolation of the unit vectors to the control points, callables; scipy.integrate.quad is an oracle"])
     rng = chk.rng
     cases, descr = [], []
     n = chk.q(40, 400)
@@ -559,6 +574,7 @@ def run(chk):
         qcurve_cases(chk, ac, a, cases, descr)
         reid_cases(chk, a, cases, descr, rng)
         sort_cases(chk, a, cases, descr)
+        swept_cases(chk, a, cases, descr)
         # reference quantities
         ref = ac.get("reference", {})
         opt = lambda k: ("(Some %s)" % fhex(ref[k])) if k in ref else "None"
